@@ -1,7 +1,7 @@
 (* C10 -- Malformed netlists are rejected; API-built designs iterate in
    dependency order whichever way ties are broken.
    Only statements + `exact`; proofs in Netlist/IterCorrect.v, SanityCorrect.v. *)
-From PyRTL Require Import Netlist.Sanity Netlist.IterCorrect Netlist.SanityCorrect.
+From PyRTL Require Import Netlist.Sanity Netlist.IterCorrect Netlist.SanityCorrect Netlist.Accepted.
 From Coq Require Import Permutation.
 
 (* Whatever the schedule (oracle = the sequence of to_clear.pop() choices): if
@@ -110,6 +110,17 @@ Theorem C10_duplicate_names_rejected : forall nl,
 Proof. exact fault_duplicate_names. Qed.
 Print Assumptions C10_duplicate_names_rejected.
 
+(* Never silently simulated: whatever the model of sanity_check accepts and the
+   iterator orders (under any schedule) satisfies `wfb`, the hypothesis under which
+   C01 proves that Simulation computes the documented semantics.  Side conditions
+   outside sanity_check's rules: Const values fit their width (Const constructor)
+   and no combinational net drives a Register (construction API). *)
+Theorem C10_accepted_implies_wfb : forall nl oracle l,
+  sanity_block nl = true -> consts_ok nl = true -> comb_dest_not_reg nl = true ->
+  iterate nl oracle = IOk l -> wfb (with_nets nl (map snd l)) = true.
+Proof. intros nl oracle l Hs Hc Hr. exact (accepted_implies_wfb nl Hs Hc Hr oracle l). Qed.
+Print Assumptions C10_accepted_implies_wfb.
+
 (* Non-vacuity: the C01 example design is accepted under two different
    schedules, which yield different but both dependency-respecting orders; and a
    one-net self-loop is rejected by the iterator under both. *)
@@ -126,6 +137,9 @@ Example C10_example_accepted :
   accepted ex_nl [] = true /\ accepted ex_nl [2; 1; 0; 5; 3; 1; 1]%nat = true
   /\ sanity_case ex_nl [] = [1; 0].
 Proof. vm_compute. repeat split; reflexivity. Qed.
+
+Example C10_example_side_conditions : consts_ok ex_nl = true /\ comb_dest_not_reg ex_nl = true.
+Proof. vm_compute. split; reflexivity. Qed.
 
 Example C10_example_orders_differ :
   match iterate ex_nl [], iterate ex_nl [2; 1; 0; 5; 3; 1; 1]%nat with
